@@ -27,7 +27,7 @@ m = {
     ],
     "checks": CHECKS,
     "not_applicable": NOT_APPLICABLE,
-    "notes": "Technique: contract-based deductive verification of the real code. ./check <id> exits 0 (all obligations discharged), 1 (VIOLATION line) or 2 (UNDECIDED: tool limit / lost anchor; never an alarm).",
+    "notes": "Technique: contract-based deductive verification of the real code (Verus on functions extracted mechanically from /repo on every run; Kani inside the real crate for bit-level / float facts and callee contracts). ./check <id> --tier quick|thorough exits 0 (every obligation discharged; KNOWN-FINDING lines for defects recorded in KNOWN_FINDINGS.txt), 1 (a VIOLATION line per failed obligation, with a replay file: a Kani counterexample or a failing input found by the native search on the real code, else ...no-failing-input-found) or 2 (UNDECIDED: tool limit / lost anchor / construct outside the dialect and no failing input found; never an alarm). DESIGN.md section 0 is the authoritative description of what is implemented; lib/selfcheck.py validates MANIFEST and evidence.",
 }
 json.dump(m, open(os.path.join(ROOT, "MANIFEST.json"), "w"), indent=1)
 print("MANIFEST.json written:", len(CHECKS), "checks,", len(NOT_APPLICABLE), "not applicable")
